@@ -136,7 +136,7 @@ impl Watch {
             _ => false,
         };
         let fo = if reliable {
-            Some(presented::self_fold(rec, &pres, chain::start_identity(rec), self.c10.start_inc(rec), conn_pre == basic::Conn::Active))
+            Some(presented::self_fold(rec, &pres, chain::start_identity(rec), self.c10.start_inc(rec), conn_pre == basic::Conn::Active, conn_pre == basic::Conn::Defunct))
         } else {
             None
         };
